@@ -41,12 +41,14 @@ func TestMain(m *testing.M) {
 			os.Exit(9)
 		}
 		var cerr error
+		out := map[string]string{}
 		if kind == "spec" {
 			_, _, cerr = checkSpec(data)
 		} else {
-			_, cerr = checkPattern(string(data))
+			var acc bool
+			acc, cerr = checkPattern(string(data))
+			out["accepted"] = fmt.Sprint(acc)
 		}
-		out := map[string]string{}
 		if cerr != nil {
 			out["err"] = cerr.Error()
 		}
@@ -57,7 +59,7 @@ func TestMain(m *testing.M) {
 }
 
 // ruleMore describes what was added to the exploration in the build phase.
-const ruleMore = "; one specimen per semantic diagnostic in several declaration orders"
+const ruleMore = "; one specimen per semantic diagnostic in several declaration orders; invalid repetition ranges with lower bounds of billions (in a child process under an address-space limit)"
 
 const (
 	rule = "inputs: (a) valid specifications mutated at token level (deletion, duplication, replacement) and byte level (truncation at any byte, byte replacement incl. NUL, non-UTF-8 and control bytes), arbitrary byte strings; " +
@@ -531,6 +533,79 @@ func TestPatternsNeverCrash(t *testing.T) {
 	})
 }
 
+// guardedPatterns are rejected at once by a sound implementation, but an implementation that expands them before (or
+// instead of) rejecting them needs gigabytes: they are submitted in a child process under an address-space limit only.
+var guardedPatterns = []string{`a{4294967297,1}`, `(ab){2147483648,2}`, `[0-9]{99999999999,3}?`, `x(a|b){300000000,299999999}y`}
+
+var errNoPrlimit = errors.New("prlimit is not installed")
+
+// childGuarded runs the pattern oracle in a child process with an address-space limit of 6 GiB and the usual
+// processor-time criterion. Running out of memory and running without end are verdicts, anything else is not.
+func childGuarded(pattern string) error {
+	prlimit, err := exec.LookPath("prlimit")
+	if err != nil {
+		return errNoPrlimit
+	}
+	dir, err := os.MkdirTemp("", "c14guard")
+	if err != nil {
+		return err
+	}
+	defer os.RemoveAll(dir)
+	file := filepath.Join(dir, "input")
+	if err := os.WriteFile(file, []byte(pattern), 0o644); err != nil {
+		return err
+	}
+	cmd := exec.Command(prlimit, "--as=6442450944", os.Args[0], "-test.run", "^$")
+	cmd.Env = append(os.Environ(), "VERIF_C14_CHILD=pattern:"+file, "GOMAXPROCS=2")
+	var out, errb bytes.Buffer
+	cmd.Stdout, cmd.Stderr = &out, &errb
+	werr := emit.Watch(cmd)
+	switch {
+	case werr == emit.ErrSpinning:
+		return fmt.Errorf("pattern %q: the Parse entry points do not return (%v of processor time; rejecting such a text costs microseconds)", pattern, emit.SpinCPU)
+	case werr == emit.ErrTimeout:
+		rec.Count("inconclusive_child_starved", 1)
+		return nil
+	case werr != nil:
+		if strings.Contains(errb.String(), "out of memory") || strings.Contains(errb.String(), "cannot allocate") {
+			return fmt.Errorf("pattern %q: the Parse entry points exhaust an address space of 6 GiB (rejecting such a text costs microseconds)", pattern)
+		}
+		rec.Count("inconclusive_child_failed", 1)
+		return nil
+	}
+	var res map[string]string
+	if json.Unmarshal(out.Bytes(), &res) != nil {
+		rec.Count("inconclusive_child_failed", 1)
+		return nil
+	}
+	if res["err"] != "" {
+		return errors.New(res["err"])
+	}
+	if res["accepted"] == "true" {
+		return fmt.Errorf("pattern %q: a repetition range whose minimum exceeds its maximum is accepted", pattern)
+	}
+	return nil
+}
+
+func TestGuardedPatterns(t *testing.T) {
+	rec.Begin(t)
+	rec.Rule(rule + ruleMore)
+	if rec.Shard() != 0 {
+		t.Skip("seed independent: shard 0 only")
+	}
+	for _, s := range guardedPatterns {
+		err := childGuarded(s)
+		if err == errNoPrlimit {
+			rec.Count("guarded_patterns_not_submitted_no_prlimit", 1)
+			continue
+		}
+		rec.Case("guarded:"+s, true, "huge_lower_bound_in_an_invalid_range")
+		if err != nil {
+			rec.Fail(t, "pattern", input{Kind: "guarded", Text: s}, "%v", err)
+		}
+	}
+}
+
 func TestHostileConstants(t *testing.T) {
 	rec.Begin(t)
 	rec.Rule(rule + ruleMore)
@@ -737,6 +812,8 @@ func TestReplay(t *testing.T) {
 	switch in.Kind {
 	case "spec":
 		_, _, err = checkSpec(in.Data)
+	case "guarded":
+		err = childGuarded(in.Text)
 	case "pattern":
 		_, err = checkPattern(in.Text)
 	default:
